@@ -37,6 +37,8 @@ def check(run, model, tier):
     run.touch(t, g)
     run.touch(pe)
     ao = model.cls('ActiveObject')
+    if len(t.params) < 3:
+        raise AnalysisError('timer thread function %s does not take (spec, deferred flag, activation counter): the counting rules do not apply to this shape' % t.qualname)
     specp, defp, cntp = t.params[0], t.params[1], t.params[2]
     heads = [h for h in g.loop_heads() if h.kind == 'test']
     if len(heads) != 1:
